@@ -326,6 +326,9 @@ def c06(tr, cx):
             sv = spec['nodes'][nid - 1]['servers']
             cap = q + (sv['c'] if kind == 'int' else max(sv['nums']) if kind == 'schedule' else max(sv['sizes']))
             tr.count('C06.capacity_checks')
+            k29 = cx.get('soft', {}).get('K29', {})
+            if nid in k29 and not (s['t'] < k29[nid]):
+                tr.count('C06.K29_exempt_checks'); continue    # open finding: jockeying ignores the capacity of its target
             if len(nd['inds']) > cap and not rr:
                 tr.v('C06', 'node_capacity_exceeded', (k, s['t'], nid, len(nd['inds']), cap, kind, s['evnode'], s['evtype']))
         if spec['syscap']:
@@ -454,6 +457,30 @@ def c08(tr, cx):
                 if jw is not None and jc is not None and wid in order and cid in order:
                     if (jw < jc) != (order[wid] < order[cid]): tr.v('C08', 'queue_order_not_join_order', (t, nid, cid, wid))
         if hadserver: tr.v('C08', 'attach_to_already_served', e[:5])
+    # structural invariant behind FIFO / LIFO: within a priority class the node's list is in order of joining that queue
+    joined = {}; seq = 0
+    groups = groups_of(tr)
+    for k, s in enumerate(tr.snaps):
+        if k >= 1 and k - 1 < len(groups):
+            for e in groups[k - 1][1]:
+                if e[0] == 'join':
+                    seq += 1; joined[(e[2], e[3])] = seq
+                elif e[0] == 'classchange_wait':
+                    pm = spec['priorities']
+                    if pm and pm[e[4]] != pm[e[5]]:
+                        seq += 1; joined[(e[2], e[3])] = seq
+        for nid, nd in s['nodes'].items():
+            if nk(spec, nid)[0] != 'Node': continue
+            last = {}
+            for i in nd['inds']:
+                j = joined.get((nid, i['id']))
+                if j is None: continue
+                tr.count('C08.queue_positions_checked')
+                pl = i.get('plist', i['prio'])     # the engine's priority list the customer sits in
+                if pl in last and last[pl][0] > j:
+                    tr.v('C08', 'queue_not_in_join_order', (k, s['t'], nid, last[pl][1], i['id'], s['evnode'], s['evtype']))
+                    break
+                last[pl] = (j, i['id'])
     # slotted nodes: the customers started at a slot respect priority + discipline w.r.t. those left waiting
     for k in range(1, len(tr.snaps)):
         s = tr.snaps[k]
@@ -598,6 +625,16 @@ def c10(tr, cx):
     if not crashed:
         for key, samples in by.items():
             if key not in arrs and len(samples) != 1: tr.v('C10', 'arrival_samples_count', (key, len(samples), 0))
+        # no arrival is skipped: when a run to time T returns, the pending arrival of every stream lies at or after T
+        if spec['run']['method'] == 'time':
+            T = spec['run']['T']
+            for key, samples in by.items():
+                acc = None
+                for v in samples:
+                    if exact: acc = Decimal(str(v)) if acc is None else Decimal(str(acc)) + Decimal(str(v))
+                    else: acc = v if acc is None else acc + v
+                tr.count('C10.pending_arrivals_checked')
+                if acc is not None and acc < T: tr.v('C10', 'arrival_due_before_horizon_not_executed', (key, str(acc), T, len(samples)))
     bat = collections.defaultdict(list)
     for (stream, t, ind, v) in slog:
         if stream[0] == 'bat': bat[(stream[1], stream[2])].append((t, v))
@@ -1072,8 +1109,10 @@ def min_service(spec):
 def c14(tr, cx):
     spec = cx['spec']
     run = spec['run']
-    if cx['t_cut'] is not None:
-        return   # everything after an open finding's trigger (including a crash) belongs to that finding
+    if cx['t_cut'] is not None and cx['status'] != 'crash':
+        return   # everything after an open finding's trigger belongs to that finding
+    if cx['t_cut'] is not None and cx.get('tainted'):
+        return   # a crash after an open finding's trigger belongs to that finding
     tr.count('C14.runs')
     if cx['status'] == 'crash':
         c = cx['crash']
